@@ -27,7 +27,7 @@ pub struct Case {
 pub fn strategy() -> impl Strategy<Value = Case> {
     let lens = || prop::collection::vec(prop_oneof![Just(0usize), 1usize..30, 1000usize..1030], 1..=20);
     (
-        prop_oneof![3 => prop::sample::select(vec![0u64, 1, 2, 10, 1000]), 1 => 0u64..3000],
+        prop_oneof![6 => prop::sample::select(vec![0u64, 1, 2, 10, 1000]), 2 => 0u64..3000, 1 => prop::sample::select(vec![u64::MAX, u64::MAX - 1, 1u64 << 63, (1u64 << 63) + 1, (1u64 << 63) - 1, u32::MAX as u64 + 1])],
         prop::option::weighted(0.85, prop_oneof![Just(-1i64), Just(0), Just(1), -30i64..30, Just(-1_000_000)]),
         prop::bool::weighted(0.75),
         1u32..=3,
@@ -51,7 +51,8 @@ fn check_in(dir: &Path, case: &Case, obs: &mut Obs) -> CaseResult {
     let mut on_disk_before: Vec<u8> = vec![];
     let existed = case.pre.is_some();
     if let Some(d) = case.pre {
-        let size = (case.min_size as i64 + d).max(0) as usize;
+        // sizes are relative to min_size, except for thresholds no real file can reach
+        let size = if case.min_size > 1 << 20 { d.unsigned_abs() as usize % 4096 } else { (case.min_size as i64 + d).max(0) as usize };
         on_disk_before = (0..size).map(|i| b'A' + (i % 23) as u8).collect();
         std::fs::write(&path, &on_disk_before).unwrap();
     }
@@ -70,7 +71,7 @@ fn check_in(dir: &Path, case: &Case, obs: &mut Obs) -> CaseResult {
         // size of the log file that exists at start-up as this appender sees it
         let start_content: Vec<u8> = if case.append_mode { on_disk_before.clone() } else { vec![] };
         let size_at_start = start_content.len() as u64;
-        if (size_at_start as i64 - case.min_size as i64).abs() <= 1 {
+        if (size_at_start as i128 - case.min_size as i128).abs() <= 1 {
             near = true;
         }
         let must_roll = size_at_start >= case.min_size;
@@ -167,6 +168,7 @@ fn check_in(dir: &Path, case: &Case, obs: &mut Obs) -> CaseResult {
     obs.class_if(near, "size-within-1-of-min_size");
     obs.class_if(case.threads.is_some(), "simultaneous-start");
     obs.class_if(case.min_size == 0, "min_size=0");
+    obs.class_if(case.min_size > 1 << 20, "unreachable-min_size");
     obs.class_if(!existed, "file-absent");
     obs.class_if(case.second_lifetime.is_some(), "second-lifetime");
     obs.class_if(!case.append_mode, "truncate-mode");
